@@ -2,6 +2,7 @@
    Directives: exactly those of ExtrOcamlBasic; nat, N, Z, positive stay inductive. *)
 Require Extraction.
 Require ExtrOcamlBasic.
-From Pika Require Import Model.Erased.
+From Pika Require Import Gen.GenErased Model.Erased.
 Extraction Language OCaml.
-Extraction "m.ml" sstep fstep fxstep init destroy_all trace new_events is_empty sspec fspec spec_trace.
+Extraction "m.ml" sstep fstep sxstep gstep gtrace xinit init destroy_all trace new_events is_empty sspec fspec spec_trace
+  sender_embeds function_inline class_ok ptr_size.
